@@ -47,6 +47,7 @@ def run_job(job):
                    'ctor': sorted(set(rig.process_ctor_methods)), 'ctxm': sorted(set(m or '' for m in rig.ctx_methods))}
     if job.get('keep_raw'):
         out['raw'] = trace
+        out['dep_order'] = rig.dep_order
     return out
 
 
